@@ -732,7 +732,12 @@ impl VectoredIO {
             }
             match reader.read(buf) {
                 Ok(0) => break,
-                Ok(n) => total += n,
+                Ok(n) => {
+                    total += n;
+                    if n < buf.len() {
+                        break; // short read: later buffers must stay untouched
+                    }
+                }
                 Err(e) => return if total > 0 { Ok(total) } else { Err(e) },
             }
         }
@@ -748,7 +753,12 @@ impl VectoredIO {
                 continue;
             }
             match writer.write(buf) {
-                Ok(n) => total += n,
+                Ok(n) => {
+                    total += n;
+                    if n < buf.len() {
+                        break; // short write: the rest of this buffer was not written
+                    }
+                }
                 Err(e) => return if total > 0 { Ok(total) } else { Err(e) },
             }
         }
